@@ -63,6 +63,7 @@ def t_rename(toks, rng):
     names = {}
     pool = ['zeta', 'নতুন', 'q_1', 'আলফা', 'v9', 'ক', 'longer_identifier_name', 'ঝ_২']
     rng.shuffle(pool)
+    pool += ['ধাপ1', 'ধাপ১', 'n2', 'n২']      # popped first: distinct names that differ only in the script of a digit
     user = []
     prev = None
     for t in toks:
